@@ -4,8 +4,10 @@
 //! be memory bandwidth.
 //!
 //! This crate implements Equihash as specified for the Zcash consensus rules. It can
-//! verify solutions for any valid `(n, k)` parameters, as long as the row indices are no
-//! larger than 32 bits (that is, `ceiling(((n / (k + 1)) + 1) / 8) <= 4`).
+//! verify solutions for any valid `(n, k)` parameters, as long as `n <= 512`, the
+//! collision bit length `n / (k + 1)` is between 8 and 24 bits (so that row indices are
+//! no larger than 25 bits), and `k <= n / (k + 1) + 1`. Any other parameters are reported
+//! as invalid.
 //!
 #![cfg_attr(feature = "std", doc = "## Feature flags")]
 #![cfg_attr(feature = "std", doc = document_features::document_features!())]
